@@ -13,6 +13,6 @@ XRecord == [ n |-> minted, prefix |-> Prefix, epochlen |-> EpochLen, horizon |->
              tip |-> tip, td |-> TD(tip), stored |-> SetSeq(stored \ {0}), main |-> SetSeq(index \ {0}),
              ext |-> SeqOf(ext), invalid |-> SetSeq(status), orphans |-> SetSeq(orphans), gone |-> SetSeq(gone),
              replies |-> [i \in 1..N |-> <<replies[i].new, replies[i].dup, replies[i].err>>],
-             lost |-> SeqOf(lost) ]
+             lost |-> SeqOf(lost), clean |-> (ExpiredLeaders = {}) ]
 EmitQuiescentX == (Emit /\ Quiescent /\ Len(order) > Prefix) => PrintT(<<"X", ToJson(XRecord)>>)
 =============================================================================
